@@ -163,6 +163,39 @@ pub fn run_history(ops: &[Op], local: &mut Local) -> Check {
             return Err(Failure::new("keypair-build-changed-files", "building on existing storage and a refused append changed the storage files".to_string()));
         }
     }
+    // (4c) the same with only the public half of the key pair, on a byte copy: the stored writability
+    // is recovered, and make_read_only then scrubs the stored secret (or reports that nothing changed)
+    {
+        let copy = Disk::from_files(before.clone());
+        let r = catch(|| {
+            block_on(async {
+                let storage = copy.storage_async().await?;
+                HypercoreBuilder::new(storage).key_pair(hc::public_only(&hc::test_keypair())).build().await
+            })
+        })
+        .map_err(|p| panic_failure("building on existing storage with the public key only", &p))?;
+        if let Ok(mut core) = r {
+            let w = core.info().writeable;
+            if w != expect_writeable {
+                return Err(Failure::new(
+                    "writability-not-recovered:build-with-public-key",
+                    format!("building on existing storage with the public key only (no open mode) reports writeable = {w}, the storage says {expect_writeable}"),
+                ));
+            }
+            match catch(|| block_on(core.make_read_only())).map_err(|p| panic_failure("make_read_only on a core rebuilt with the public key", &p))? {
+                Ok(changed) if changed == expect_writeable => {}
+                other => {
+                    return Err(Failure::new(
+                        "make-read-only-result:build-with-public-key",
+                        format!("make_read_only on storage (writeable = {expect_writeable}) rebuilt with the public key only returned {other:?}"),
+                    ))
+                }
+            }
+            drop(core);
+            scan_for_secret(&copy.snapshot(), "after make_read_only on a core rebuilt with the public key only")?;
+            local.class("rebuilt_with_public_key_without_open_mode");
+        }
+    }
     local.class("histories");
     if made_ro {
         local.class("with_make_read_only");
